@@ -8,7 +8,18 @@ from typing import Any, Dict, List, Optional, Tuple
 from ..core import Ctx, enc
 from ..gen.project import Gen, Knobs, build_system
 
-THEOREMS = ["Registry.inv_init", "Registry.dset_get_same", "Registry.dset_get_other", "Registry.ddel_get_other"]
+THEOREMS = [
+    # property theorems (full strength, no hypothesis beyond "the operation did not raise")
+    "Registry.inv_step", "Registry.inv_run", "Registry.Inv.invB", "Registry.invB_run",
+    "Registry.registered_under_current_name", "Registry.registered_names_unique", "Registry.registered_exactly_once",
+    "Registry.contents_coherent", "Registry.child_listed_or_superseded", "Registry.every_object_named",
+    # the per-operation theorems and the key lemmas they rest on
+    "Registry.addObject_inv", "Registry.reparent_inv", "Registry.handleDuplicate_spec", "Registry.freeIndex_free",
+    "Registry.delAll_spec", "Registry.addAll_spec", "Registry.reroot",
+    # base case and dict algebra
+    "Registry.inv_init", "Registry.inv_holds_init",
+    "Registry.dset_get_same", "Registry.dset_get_other", "Registry.ddel_get_other",
+]
 RULE = ("(a) operation logs recorded from the real System.addObject / Documentable.reparent while analysing generated "
         "projects (duplicates, nested classes, property setters, re-export moves, cycles), replayed on the Lean Registry "
         "model and compared state for state (allobjects keys in order, every object's name/parent/class/contents); "
@@ -20,8 +31,7 @@ ASSUMPTIONS = [
     "histories in which two different paths join to the same dotted string are compared by the direct oracle only",
     "duplicate *modules* (_handleDuplicateModule/_remove) are exercised by the direct oracle, not by the model",
 ]
-PARTIAL = {"Registry.inv_run": "full invariance over all histories is evaluated by invB on every replayed history; "
-                               "proved lemmas cover fresh registrations and the dict algebra"}
+PARTIAL: Dict[str, str] = {}   # inv_step / inv_run are proved in full (incl. that the `name i` index of handleDuplicate is free)
 
 CLS = {"Package": "P", "Module": "M", "Class": "C", "Function": "F", "Attribute": "A"}
 
